@@ -78,7 +78,7 @@ the value and the start position, provided the byte before it (if any) has its h
 theorem rev_decode (v : Nat) (hv : v < 2 ^ 56) (pre : List Nat)
     (hpre : ∀ x, pre.getLast? = some x → x < 128) :
     decodeVarintRev (Buf.ofList (pre ++ Spec.putVarint v)) (pre.length + (Spec.putVarint v).length) 9
-      = .ok (.value v pre.length) := by
+      = .ok (v, pre.length) := by
   exact Proofs.Codec.rev_decode v hv pre hpre
 
 /-! ### Serial types -/
@@ -152,7 +152,7 @@ theorem serial_signature_class (st : Int) (hst : 0 ≤ st) :
 example : decodeVarint (Buf.ofList [0x81, 0x00]) 0 = .ok (128, 2) := by decide
 example : encodeVarint (-1) = .ok [255, 255, 255, 255, 255, 255, 255, 255, 255] := by decide
 example : encodeVarint 0 = .ok [0] := by decide
-example : decodeVarintRev (Buf.ofList ([0x05] ++ Spec.putVarint 300)) 3 9 = .ok (.value 300 1) := by decide
+example : decodeVarintRev (Buf.ofList ([0x05] ++ Spec.putVarint 300)) 3 9 = .ok (300, 1) := by decide
 example : getRecordContent 3 (Buf.ofList [0xFF, 0xFF, 0xFE]) 0 = .ok (3, .int (-2)) := by decide
 example : calcBodyContentSize (Buf.ofList [1, 13, 0x81, 0x00]) = .ok (1 + 0 + 58) := by decide
 
